@@ -262,7 +262,7 @@ def switchTyped (fn : String) : Bool :=
   match typeSwitches.lookup fn with
   | some cases =>
     cases.all (caseTyped fn) && (fn == "areEqualExpr" || (domOf fn).kinds.all fun k => !kindChanging k)
-      && (specialFns.contains fn || cases.all fun c => c.2.1 != "special")
+      && (specialFns.contains fn || (cases.all (fun c => c.2.1 != "special") && (comparators.lookup fn).isNone))
   | none => false
 
 /-- the functions `P` is proved for -/
